@@ -158,6 +158,18 @@ def check_c14(case):
             if n in ref["attrs"] and "barrier" in ref["attrs"][n]:
                 if g2.get_barrier(n) != ref["attrs"][n]["barrier"]:
                     v("restored_barrier_differs", {"task": n})
+    # conducting never changes the composed graph (what gets persisted stays the definition's graph)
+    try:
+        from vx import c19 as c19m
+
+        for mode in ("mixed", "all_fail"):
+            art = c19m.artefacts(wf, case.get("inputs"), mode=mode)
+            final = [x for x in art.get("conduct", []) if x[0] == "final"]
+            if final and json.dumps(final[0][1]["graph"], sort_keys=True) != base:
+                v("graph_changed_by_conducting", {"mode": mode})
+                break
+    except Exception as ex:
+        v("conducting_raised", {"exc": "%s: %s" % (type(ex).__name__, ex)})
     return {"violations": out, "nodes": len(ref["nodes"]), "edges": len(ref["edges"])}
 
 
